@@ -20,10 +20,13 @@
 EXTENDS Integers, Sequences, FiniteSets, TLC
 
 CONSTANTS Sessions,      \* session ids
-          Viewers,       \* subset of Sessions with the viewer role (the others are editors)
+          Viewers,       \* sessions that start with the viewer role (the others are editors)
+          TornIds,       \* content ids an unlocked reader may see inside a write's truncate window (besides the empty file)
+          Failures,      \* BOOLEAN: a request may fail for reasons outside the protocol (I/O error), changing nothing
           MaxOps,        \* bound on the number of requests (model checking only)
           Variant,       \* "locked" (the design) | "racy" (version compared at the unlocked read: must fail)
           External,      \* BOOLEAN: somebody edits the file behind the IDE's back
+          MaxExpire,     \* bound on the number of sessions that expire (model checking only)
           Sequential,    \* BOOLEAN: requests do not overlap (script export for sequential replay)
           CheckTarget    \* BOOLEAN: an existing final entry must itself resolve inside the root
 
@@ -136,7 +139,8 @@ CauseFrom(cur, p, i) ==
       IF x = "none" \/ Tree[x].kind = "absent" THEN "none"
       ELSE IF Tree[x].kind = "link"
            THEN LET y == Deref(x) IN
-                IF Tree[y].kind = "absent" THEN (IF i = Len(p) THEN "dangling-file-symlink" ELSE "dangling-dir-symlink")
+                IF Tree[y].kind = "absent"
+                THEN (IF \A j \in (i + 1)..Len(p) : p[j] \in {"", "."} THEN "dangling-file-symlink" ELSE "dangling-dir-symlink")
                 ELSE IF Tree[y].zone = "out" THEN (IF Tree[y].kind = "dir" THEN "dir-symlink" ELSE "file-symlink")
                 ELSE IF Tree[y].kind = "dir" THEN CauseFrom(y, p, i + 1) ELSE "none"
       ELSE IF Tree[x].kind = "dir" THEN CauseFrom(x, p, i + 1) ELSE "none"
@@ -176,85 +180,106 @@ Confinement(n) == Escapes(n) = {}
 (***************************************************************************************)
 VARIABLES disk,          \* content id of the file (0 = the empty file seen inside a write's truncate window)
           entry,         \* the tracked document: [content, version]; version 0 = not tracked yet
-          lock,          \* "free" or the session that holds the state lock across truncate + write
-          sess,          \* per session: alive, what it has seen, and the program counter of its request
+          lock,          \* {} (free) or {the session that holds the state lock across truncate + write}
+          sess,          \* per session: role, alive, what it has seen, the program counter of its request,
+                         \* and `res`, the answer to its last request (observation only)
           nextContent, nops,
           lastSuccess,   \* ghost: content of the last successful write (or external edit / initial content)
           hist           \* observation only: the requests so far (script export)
 vars == <<disk, entry, lock, sess, nextContent, nops, lastSuccess, hist>>
-View == <<disk, entry, lock, sess, nextContent, nops, lastSuccess>>
+View == <<disk, entry, lock, [s \in Sessions |-> [f \in DOMAIN sess[s] \ {"res"} |-> sess[s][f]]], nextContent, nops, lastSuccess>>
 
 Empty == 0
-Free == "free"
+Free == {}
 \* the tracked document follows the disk: created at version 1, bumped when the disk differs
 Refresh(e, seen) == IF e.version = 0 THEN [content |-> seen, version |-> 1]
                     ELSE IF e.content # seen THEN [content |-> seen, version |-> e.version + 1] ELSE e
-
+Res(ok, kind, ver, content) == [ok |-> ok, kind |-> kind, ver |-> ver, content |-> content]
+NoRes == Res(FALSE, "none", 0, 0)
+Session0(role) == [role |-> role, alive |-> role # "invalid", base |-> -1, ver |-> 0, prev |-> 0, pc |-> "idle", op |-> "none",
+                   seen |-> -1, new |-> -1, exp |-> 0, okAtRead |-> FALSE, we |-> TRUE, res |-> NoRes]
 Init == /\ disk = 1 /\ entry = [content |-> 0, version |-> 0] /\ lock = Free /\ nextContent = 2 /\ nops = 0
         /\ lastSuccess = 1 /\ hist = <<>>
-        /\ sess = [s \in Sessions |-> [alive |-> TRUE, base |-> -1, ver |-> 0, pc |-> "idle", op |-> "none",
-                                       seen |-> -1, new |-> -1, exp |-> 0, okAtRead |-> FALSE, we |-> TRUE]]
+        /\ sess = [s \in Sessions |-> Session0(IF s \in Viewers THEN "viewer" ELSE "editor")]
 Idle(s) == sess[s].pc = "idle"
 Quiet == Sequential => (lock = Free /\ \A t \in Sessions : Idle(t))
+\* a session learns versions from the answers to its own requests
+Learn(r, v) == [r EXCEPT !.prev = IF r.ver = v THEN r.prev ELSE r.ver, !.ver = v]
 BeginOpen(s) ==
   /\ Idle(s) /\ nops < MaxOps /\ Quiet /\ nops' = nops + 1
-  /\ sess' = [sess EXCEPT ![s].pc = "read", ![s].op = "open"]
-  /\ hist' = Append(hist, [a |-> "open", s |-> s, we |-> TRUE])
+  /\ sess' = [sess EXCEPT ![s].pc = "read", ![s].op = "open", ![s].res = NoRes]
+  /\ hist' = Append(hist, [a |-> "open", s |-> s, we |-> TRUE, stale |-> FALSE])
   /\ UNCHANGED <<disk, entry, lock, nextContent, lastSuccess>>
-\* a write request carries the version the session knows; write-disabled mode refuses at once
-BeginWrite(s, we) ==
-  /\ Idle(s) /\ nops < MaxOps /\ Quiet /\ sess[s].ver > 0 /\ nops' = nops + 1
+\* a write request carries a version the session has learned - the latest, or (stale) the one
+\* before; write-disabled mode refuses at once
+BeginWrite(s, we, exp) ==
+  /\ Idle(s) /\ nops < MaxOps /\ Quiet /\ exp \in {sess[s].ver, sess[s].prev} /\ nops' = nops + 1
   /\ sess' = [sess EXCEPT ![s].pc = IF we THEN "read" ELSE "idle", ![s].op = "write", ![s].we = we,
-                          ![s].new = nextContent, ![s].exp = sess[s].ver]
+                          ![s].new = nextContent, ![s].exp = exp,
+                          ![s].res = IF we THEN NoRes ELSE Res(FALSE, "forbidden", 0, 0)]
   /\ nextContent' = nextContent + 1
-  /\ hist' = Append(hist, [a |-> "write", s |-> s, we |-> we])
+  /\ hist' = Append(hist, [a |-> "write", s |-> s, we |-> we, stale |-> exp # sess[s].ver])
   /\ UNCHANGED <<disk, entry, lock, lastSuccess>>
-\* phase 1, no lock: read the file
+\* phase 1, no lock: read the file - as it is, or torn while somebody is inside truncate + write
 ReadDisk(s) ==
   /\ sess[s].pc = "read"
-  /\ sess' = [sess EXCEPT ![s].pc = "commit", ![s].seen = disk,
-                          ![s].okAtRead = (Refresh(entry, disk).version = sess[s].exp)]
+  /\ \E seen \in {disk} \cup (IF lock # Free THEN TornIds ELSE {}) :
+       sess' = [sess EXCEPT ![s].pc = "commit", ![s].seen = seen,
+                            ![s].okAtRead = (Refresh(entry, seen).version = sess[s].exp)]
   /\ UNCHANGED <<disk, entry, lock, nextContent, nops, lastSuccess, hist>>
 \* phase 2 of open, under the lock: session check, refresh, answer (content seen, version)
 CommitOpen(s) ==
   /\ sess[s].pc = "commit" /\ sess[s].op = "open" /\ lock = Free
-  /\ IF ~sess[s].alive THEN sess' = [sess EXCEPT ![s].pc = "idle"] /\ UNCHANGED entry
+  /\ IF ~sess[s].alive
+     THEN sess' = [sess EXCEPT ![s].pc = "idle", ![s].res = Res(FALSE, "unauthorized", 0, 0)] /\ UNCHANGED entry
      ELSE LET e == Refresh(entry, sess[s].seen) IN
           /\ entry' = e
-          /\ sess' = [sess EXCEPT ![s].pc = "idle", ![s].base = sess[s].seen, ![s].ver = e.version]
+          /\ sess' = [sess EXCEPT ![s] = Learn([@ EXCEPT !.pc = "idle", !.base = sess[s].seen,
+                                                        !.res = Res(TRUE, "ok", e.version, sess[s].seen)], e.version)]
   /\ UNCHANGED <<disk, lock, nextContent, nops, lastSuccess, hist>>
 \* phase 2 of write, under the lock: session + role check, refresh, version comparison, truncate
 CommitWrite(s) ==
   /\ sess[s].pc = "commit" /\ sess[s].op = "write" /\ lock = Free
-  /\ IF ~sess[s].alive \/ s \in Viewers
-     THEN sess' = [sess EXCEPT ![s].pc = "idle"] /\ UNCHANGED <<disk, entry, lock>>      \* unauthorized / forbidden
+  /\ IF ~sess[s].alive \/ sess[s].role # "editor"
+     THEN /\ sess' = [sess EXCEPT ![s].pc = "idle",
+                                  ![s].res = Res(FALSE, IF sess[s].alive THEN "forbidden" ELSE "unauthorized", 0, 0)]
+          /\ UNCHANGED <<disk, entry, lock>>
      ELSE LET e == Refresh(entry, sess[s].seen)
               pass == IF Variant = "racy" THEN sess[s].okAtRead ELSE e.version = sess[s].exp IN
           IF ~pass
-          THEN entry' = e /\ sess' = [sess EXCEPT ![s].pc = "idle"] /\ UNCHANGED <<disk, lock>>   \* conflict(current = e.version)
-          ELSE entry' = e /\ disk' = Empty /\ lock' = s /\ sess' = [sess EXCEPT ![s].pc = "writing"]
+          THEN /\ entry' = e /\ UNCHANGED <<disk, lock>>
+               /\ sess' = [sess EXCEPT ![s].pc = "idle", ![s].res = Res(FALSE, "conflict", e.version, 0)]
+          ELSE entry' = e /\ disk' = Empty /\ lock' = {s} /\ sess' = [sess EXCEPT ![s].pc = "writing"]
   /\ UNCHANGED <<nextContent, nops, lastSuccess, hist>>
 \* phase 3 of write, still under the lock: the bytes, the new version, unlock
 FinishWrite(s) ==
-  /\ sess[s].pc = "writing" /\ lock = s
+  /\ sess[s].pc = "writing" /\ lock = {s}
   /\ disk' = sess[s].new /\ lastSuccess' = sess[s].new /\ lock' = Free
   /\ entry' = [content |-> sess[s].new, version |-> entry.version + 1]
-  /\ sess' = [sess EXCEPT ![s].pc = "idle", ![s].base = sess[s].new, ![s].ver = entry.version + 1]
+  /\ sess' = [sess EXCEPT ![s] = Learn([@ EXCEPT !.pc = "idle", !.base = sess[s].new,
+                                                !.res = Res(TRUE, "ok", entry.version + 1, 0)], entry.version + 1)]
   /\ UNCHANGED <<nextContent, nops, hist>>
+\* a failure outside the protocol, before anything was changed
+Fail(s) ==
+  /\ Failures /\ sess[s].pc \in {"read", "commit"}
+  /\ sess' = [sess EXCEPT ![s].pc = "idle", ![s].res = Res(FALSE, "other", 0, 0)]
+  /\ UNCHANGED <<disk, entry, lock, nextContent, nops, lastSuccess, hist>>
 \* the session's idle time-to-live runs out
 Expire(s) ==
   /\ sess[s].alive /\ nops < MaxOps /\ Quiet /\ nops' = nops + 1
+  /\ Cardinality({t \in Sessions : ~sess[t].alive}) < MaxExpire
   /\ sess' = [sess EXCEPT ![s].alive = FALSE]
-  /\ hist' = Append(hist, [a |-> "expire", s |-> s, we |-> TRUE])
+  /\ hist' = Append(hist, [a |-> "expire", s |-> s, we |-> TRUE, stale |-> FALSE])
   /\ UNCHANGED <<disk, entry, lock, nextContent, lastSuccess>>
 \* somebody else changes the file (the property promises nothing about that edit itself)
 ExternalEdit ==
   /\ External /\ nops < MaxOps /\ Quiet /\ nops' = nops + 1
   /\ disk' = nextContent /\ lastSuccess' = nextContent /\ nextContent' = nextContent + 1
-  /\ hist' = Append(hist, [a |-> "ext", s |-> "", we |-> TRUE])
+  /\ hist' = Append(hist, [a |-> "ext", s |-> "", we |-> TRUE, stale |-> FALSE])
   /\ UNCHANGED <<entry, lock, sess>>
-Next == \/ \E s \in Sessions : BeginOpen(s) \/ ReadDisk(s) \/ CommitOpen(s) \/ CommitWrite(s) \/ FinishWrite(s) \/ Expire(s)
-        \/ \E s \in Sessions, we \in BOOLEAN : BeginWrite(s, we)
+Internal(s) == ReadDisk(s) \/ CommitOpen(s) \/ CommitWrite(s) \/ FinishWrite(s) \/ Fail(s)
+Next == \/ \E s \in Sessions : BeginOpen(s) \/ Internal(s) \/ Expire(s)
+        \/ \E s \in Sessions, we \in BOOLEAN : \E exp \in {sess[s].ver, sess[s].prev} : exp > 0 /\ BeginWrite(s, we, exp)
         \/ ExternalEdit
 Spec == Init /\ [][Next]_vars
 
@@ -269,7 +294,7 @@ Chain == [][\A s \in Sessions : (sess[s].pc = "writing" /\ sess'[s].pc = "idle")
                /\ entry'.version = sess[s].exp + 1 /\ sess'[s].ver = sess[s].exp + 1 /\ entry.version = sess[s].exp]_vars
 VersionsGrow == [][entry'.version >= entry.version]_vars
 \* viewer sessions, expired sessions and write-disabled requests never change the file
-OnlyLiveEditorsMutate == [][\A s \in Sessions : Passing(s) => s \notin Viewers /\ sess[s].alive /\ sess[s].we]_vars
+OnlyLiveEditorsMutate == [][\A s \in Sessions : Passing(s) => sess[s].role = "editor" /\ sess[s].alive /\ sess[s].we]_vars
 FileChangesOnlyInWrites == [][disk' # disk => \/ \E s \in Sessions : Passing(s) \/ (sess[s].pc = "writing" /\ sess'[s].pc = "idle")
                                               \/ External]_vars
 =============================================================================
